@@ -73,7 +73,10 @@ PReset == ps' = PS0
 
 Flag(s, c, name) == IF c THEN [s EXCEPT !.bad = @ \cup {name}] ELSE s
 Ids(s) == DOMAIN s.calls
-Eq(m, a, b) == a = b \/ (m > 0 /\ a % m = b % m)
+\* m > 0: the custom equality is "equal modulo m"; m < 0: "equal modulo -m, and false whenever an
+\* argument is the zero value" (the usual nil-guard comparator; the library compares identical
+\* values as equal before it asks the comparator, which is the reading taken here)
+Eq(m, a, b) == a = b \/ (m > 0 /\ a % m = b % m) \/ (m < 0 /\ a # 0 /\ b # 0 /\ a % (0 - m) = b % (0 - m))
 
 IsWait(r) == r.op = "wait"
 PendingWaits(s) == {i \in Ids(s) : IsWait(s.calls[i]) /\ s.calls[i].st = "pending"}
